@@ -8,7 +8,7 @@
    4. the join-reorder size score stays inside i32 for every usize row count.
    What is NOT proved (assumption, validated by the search part of checks/C29.py only): that sqlparser's own recursion
    stays below its limit when the textual depth is <= 47, and everything else in the 100k lines. *)
-From QV Require Import Base.Util C36.Model C36.Proofs C29.Model.
+From QV Require Import Base.Util C29.Model.
 Local Open Scope Z_scope.
 
 (* =====================================================================================================
@@ -56,8 +56,8 @@ Proof.
       destruct (c =? LP).
       { rewrite IH by lia. unfold bal_step. replace (Z.max 0 (depth + 1)) with (depth + 1) by lia. lia. }
       destruct (c =? RP).
-      { assert (sat_dec depth = Z.max 0 (depth + -1)) as E by (unfold sat_dec; destruct (depth <=? 0) eqn:L; lia).
-        rewrite IH by (unfold sat_dec; destruct (depth <=? 0); lia). unfold bal_step. rewrite E. lia. }
+      { assert (sat_dec depth = Z.max 0 (depth + -1)) as E by (unfold sat_dec; destruct (Z.leb_spec depth 0); lia).
+        rewrite IH by (rewrite E; lia). unfold bal_step. rewrite E. lia. }
       rewrite IH by lia. unfold bal_step. replace (Z.max 0 (depth + 0)) with depth by lia. lia.
     + cbn [lex_delta lex_step]. rewrite IH by lia. unfold bal_step. replace (Z.max 0 (depth + 0)) with depth by lia. lia.
     + cbn [lex_delta lex_step]. rewrite IH by lia. unfold bal_step. replace (Z.max 0 (depth + 0)) with depth by lia. lia.
@@ -150,7 +150,7 @@ Proof.
     destruct ((c =? DASH) && next_is_dash r); [specialize (IH MComment depth best H); lia|].
     destruct (c =? LP); [specialize (IH MNormal (depth + 1) (Z.max best (depth + 1)) ltac:(lia)); lia|].
     destruct (c =? RP).
-    + assert (0 <= sat_dec depth <= depth) as S by (unfold sat_dec; destruct (depth <=? 0) eqn:L; lia).
+    + assert (0 <= sat_dec depth <= depth) as S by (unfold sat_dec; destruct (Z.leb_spec depth 0); lia).
       specialize (IH MNormal (sat_dec depth) best ltac:(lia)). lia.
     + specialize (IH MNormal depth best H). lia.
   - specialize (IH (if c =? q then MNormal else MQuote q) depth best H). lia.
@@ -234,7 +234,9 @@ Section Width.
     intros Hx Hy Hy0. apply in_range_iff in Hx, Hy. pose proof P_pos as HP.
     assert (imin bits = - P) as Em by reflexivity. rewrite Em.
     destruct (Z.eq_dec y (-1)) as [->|Hm1].
-    - rewrite Z.quot_opp_r, Z.quot_1_r by lia. rewrite Z.eqb_refl, andb_true_r.
+    - assert (Z.quot x (-1) = - x) as Q
+        by (change (-1) with (Z.opp 1); rewrite Z.quot_opp_r, Z.quot_1_r by lia; reflexivity).
+      rewrite Q, Z.eqb_refl, andb_true_r.
       destruct (x =? - P) eqn:E; cbn [negb].
       + apply Z.eqb_eq in E. subst x. apply in_range_false_iff. lia.
       + apply Z.eqb_neq in E. apply in_range_iff. lia.
@@ -317,7 +319,7 @@ Section Width.
   Proof.
     intros Hop Hx Hy. rewrite (k_op_spec op x y Hop Hx Hy). unfold spec_int.
     destruct (math_op op x y) as [r|] eqn:E; [|reflexivity].
-    destruct (in_range bits r); [|reflexivity]. rewrite E. apply Z.eqb_refl.
+    destruct (in_range bits r); [|reflexivity]. apply Z.eqb_refl.
   Qed.
 End Width.
 
@@ -346,22 +348,13 @@ Proof. vm_compute. repeat split; reflexivity. Qed.
 Theorem fold_agrees op x y : 0 <= op <= 6 -> in_range 64 x = true -> in_range 64 y = true ->
   lit_op op x y = k_op op 64 x y.
 Proof.
-  intros Hop Hx Hy. unfold lit_op, lit_with, f_op.
-  destruct (op =? 0) eqn:E0.
-  { unfold k_op. rewrite E0. unfold k_add. destruct (in_range 64 (x + y)); reflexivity. }
-  destruct (op =? 1) eqn:E1.
-  { unfold k_op. rewrite E0, E1. unfold k_sub. destruct (in_range 64 (x - y)); reflexivity. }
-  destruct (op =? 2) eqn:E2.
-  { unfold k_op. rewrite E0, E1, E2. unfold k_mul. destruct (in_range 64 (x * y)); reflexivity. }
-  destruct (op =? 3) eqn:E3.
-  { unfold k_op. rewrite E0, E1, E2, E3. unfold k_div.
-    destruct (y =? 0) eqn:Ey; cbn [orb].
-    - rewrite E0, E1, E2, E3. unfold k_div. now rewrite Ey.
-    - destruct ((x =? imin 64) && (y =? -1)) eqn:C; [|reflexivity].
-      rewrite E0, E1, E2, E3. unfold k_div. now rewrite Ey, C. }
-  destruct (op =? 4) eqn:E4.
-  { unfold k_op. rewrite E0, E1, E2, E3, E4. unfold k_rem.
-    destruct (y =? 0) eqn:Ey; [rewrite E0, E1, E2, E3, E4; unfold k_rem; now rewrite Ey|reflexivity]. }
+  intros Hop Hx Hy. unfold lit_op, lit_with, f_op, k_op.
+  destruct (op =? 0). { unfold k_add. destruct (in_range 64 (x + y)); reflexivity. }
+  destruct (op =? 1). { unfold k_sub. destruct (in_range 64 (x - y)); reflexivity. }
+  destruct (op =? 2). { unfold k_mul. destruct (in_range 64 (x * y)); reflexivity. }
+  destruct (op =? 3).
+  { unfold k_div. destruct (y =? 0); cbn [orb]; [reflexivity|]. destruct ((x =? imin 64) && (y =? -1)); reflexivity. }
+  destruct (op =? 4). { unfold k_rem. destruct (y =? 0); reflexivity. }
   reflexivity.
 Qed.
 Corollary lit_no_panic op x y : 0 <= op <= 6 -> in_range 64 x = true -> in_range 64 y = true ->
@@ -374,4 +367,356 @@ Theorem fold_min_div_before_fix :
   in_range 64 (imin 64) = true /\ in_range 64 (-1) = true /\
   lit_op_before_fix 3 (imin 64) (-1) = OPanic /\ lit_op_before_fix 4 (imin 64) (-1) = OPanic /\
   lit_op 3 (imin 64) (-1) = OErr /\ lit_op 4 (imin 64) (-1) = OVal 0.
+Proof. vm_compute. repeat split; reflexivity. Qed.
+
+(* =====================================================================================================
+   3. date32_to_naive, chrono's from_num_days_from_ce_opt, EXTRACT / DATE_TRUNC / DATE_ADD
+   ===================================================================================================== *)
+(* ---- civil date <-> day number: the round trip for ALL integers (one 400-year era checked exhaustively by
+   vm_compute, lifted by periodicity).  Same lemmas and proofs as in coq/theories/C36/Proofs.v. ---- *)
+(* exhaustive check of f on [lo, lo + 2^depth) by binary splitting *)
+Fixpoint all_in (depth : nat) (lo : Z) (f : Z -> bool) : bool :=
+  match depth with
+  | O => f lo
+  | S d => all_in d lo f && all_in d (lo + 2 ^ Z.of_nat d) f
+  end.
+Lemma all_in_spec f : forall depth lo, all_in depth lo f = true ->
+  forall z, lo <= z < lo + 2 ^ Z.of_nat depth -> f z = true.
+Proof.
+  induction depth as [|d IH]; intros lo H z Hz.
+  - cbn [all_in] in H. change (2 ^ Z.of_nat 0) with 1 in Hz. now replace z with lo by lia.
+  - cbn [all_in] in H. apply andb_true_iff in H as [H1 H2].
+    replace (Z.of_nat (S d)) with (Z.succ (Z.of_nat d)) in Hz by lia. rewrite Z.pow_succ_r in Hz by lia.
+    destruct (Z.lt_ge_cases z (lo + 2 ^ Z.of_nat d)); [apply (IH lo H1); lia|apply (IH _ H2); lia].
+Qed.
+
+(* one 400-year era: days-of-era 0 .. 146096 *)
+Definition era_ok (doe : Z) : bool :=
+  (146097 <=? doe) ||
+  (let '(y, m, d) := civil_from_days (doe - 719468) in
+   (days_from_civil y m d =? doe - 719468) && valid_ymd y m d && (0 <=? y) && (y <=? 400)).
+Lemma era_checked : forall doe, 0 <= doe < 146097 -> era_ok doe = true.
+Proof.
+  assert (all_in 18 0 era_ok = true) as H by (vm_compute; reflexivity).
+  intros doe Hd. apply (all_in_spec era_ok 18 0 H). change (2 ^ Z.of_nat 18) with 262144. lia.
+Qed.
+
+Lemma leap_shift y e : is_leap (y + e * 400) = is_leap y.
+Proof.
+  unfold is_leap.
+  replace ((y + e * 400) mod 4) with (y mod 4) by (replace (y + e * 400) with (y + (e * 100) * 4) by lia; now rewrite Z_mod_plus_full).
+  replace ((y + e * 400) mod 100) with (y mod 100) by (replace (y + e * 400) with (y + (e * 4) * 100) by lia; now rewrite Z_mod_plus_full).
+  now rewrite Z_mod_plus_full.
+Qed.
+Lemma valid_shift y m d e : valid_ymd (y + e * 400) m d = valid_ymd y m d.
+Proof. unfold valid_ymd, dim. now rewrite leap_shift. Qed.
+Lemma dfc_shift y m d e : days_from_civil (y + e * 400) m d = days_from_civil y m d + e * 146097.
+Proof.
+  unfold days_from_civil. cbv zeta.
+  replace (if m <=? 2 then y + e * 400 - 1 else y + e * 400) with ((if m <=? 2 then y - 1 else y) + e * 400)
+    by (destruct (m <=? 2); lia).
+  rewrite Z_div_plus_full, Z_mod_plus_full by lia. lia.
+Qed.
+Lemma cfd_shift z e :
+  civil_from_days (z + e * 146097) = (let '(y, m, d) := civil_from_days z in (y + e * 400, m, d)).
+Proof.
+  unfold civil_from_days. cbv zeta.
+  replace (z + e * 146097 + 719468) with (z + 719468 + e * 146097) by lia.
+  rewrite Z_div_plus_full, Z_mod_plus_full by lia. f_equal. f_equal. lia.
+Qed.
+
+Lemma civil_roundtrip_era doe e : 0 <= doe < 146097 ->
+  let '(y, m, d) := civil_from_days ((doe - 719468) + e * 146097) in
+  days_from_civil y m d = (doe - 719468) + e * 146097 /\ valid_ymd y m d = true.
+Proof.
+  intro Hd. pose proof (era_checked doe Hd) as C. unfold era_ok in C.
+  replace (146097 <=? doe) with false in C by lia. cbn [orb] in C.
+  rewrite cfd_shift. destruct (civil_from_days (doe - 719468)) as [[y m] d].
+  apply andb_true_iff in C as [C _]. apply andb_true_iff in C as [C _]. apply andb_true_iff in C as [C1 C2]. apply Z.eqb_eq in C1.
+  rewrite dfc_shift, valid_shift. split; [lia|assumption].
+Qed.
+Theorem civil_roundtrip z :
+  let '(y, m, d) := civil_from_days z in days_from_civil y m d = z /\ valid_ymd y m d = true.
+Proof.
+  pose proof (civil_roundtrip_era ((z + 719468) mod 146097) ((z + 719468) / 146097)
+                ltac:(apply Z.mod_pos_bound; lia)) as R.
+  replace ((z + 719468) mod 146097 - 719468 + (z + 719468) / 146097 * 146097) with z in R; [exact R|].
+  pose proof (Z.div_mod (z + 719468) 146097 ltac:(lia)). lia.
+Qed.
+
+
+Lemma is_i32_iff z : is_i32 z = true <-> -2147483648 <= z <= 2147483647.
+Proof.
+  unfold is_i32, in_range, imin, imax. change (2 ^ (32 - 1)) with 2147483648.
+  rewrite andb_true_iff, !Z.leb_le. lia.
+Qed.
+Lemma is_i32_false_iff z : is_i32 z = false <-> (z < -2147483648 \/ 2147483647 < z).
+Proof.
+  unfold is_i32, in_range, imin, imax. change (2 ^ (32 - 1)) with 2147483648.
+  rewrite andb_false_iff, !Z.leb_gt. lia.
+Qed.
+Lemma is_u32_iff z : is_u32 z = true <-> 0 <= z < 4294967296.
+Proof. unfold is_u32. change (2 ^ 32) with 4294967296. rewrite andb_true_iff, Z.leb_le, Z.ltb_lt. lia. Qed.
+
+(* one 400-year cycle of chrono's day numbering (day 0 = 0000-01-01), checked exhaustively:
+   cycle_to_yo does not leave u32, agrees with the proleptic Gregorian calendar, and the year is monotone in the day
+   (C0 = 0257-01-01, C1 = 0142-12-31: the cycle days at which chrono's MIN_YEAR / MAX_YEAR begin / end) *)
+Definition C0 := 93868.
+Definition C1 := 52229.
+Definition cycle_chk (c : Z) : bool :=
+  match cycle_to_yo c with
+  | RPanic => false
+  | ROk (ym, ord) =>
+      let '(y, m, d) := civil_from_days (c - 719528) in
+      (y =? ym) && (0 <=? ym) && (ym <=? 399) && (1 <=? ord) && (ord <=? 366)
+      && negb ((ord =? 366) && negb (is_leap ym))
+      && (let '(m', d') := md_of_ordinal (is_leap ym) ord in (m' =? m) && (d' =? d))
+      && Bool.eqb (257 <=? ym) (C0 <=? c) && Bool.eqb (ym <=? 142) (c <=? C1)
+  end.
+Lemma cycle_checked : forall c, 0 <= c < 146097 -> cycle_chk c = true.
+Proof.
+  assert (all_in 18 0 (fun c => (146097 <=? c) || cycle_chk c) = true) as H by (vm_compute; reflexivity).
+  intros c Hc. pose proof (all_in_spec _ 18 0 H c) as P. change (2 ^ Z.of_nat 18) with 262144 in P.
+  specialize (P ltac:(lia)). cbv beta in P.
+  destruct (146097 <=? c) eqn:L; [apply Z.leb_le in L; lia|exact P].
+Qed.
+
+Lemma chrono_from_ce_spec n : is_i32 n = true ->
+  match chrono_from_ce n with
+  | RPanic => False
+  | ROk None => date_in_range (n - 719163) = false
+  | ROk (Some yo) => date_in_range (n - 719163) = true /\ ymd_of yo = civil_from_days (n - 719163) /\
+                     MIN_YEAR <= fst yo <= MAX_YEAR
+  end.
+Proof.
+  intro Hn. apply is_i32_iff in Hn. unfold chrono_from_ce, checked_add32.
+  destruct (is_i32 (n + 365)) eqn:E365.
+  2:{ apply is_i32_false_iff in E365. unfold date_in_range, DMIN, DMAX.
+      apply andb_false_iff. right. apply Z.leb_gt. lia. }
+  apply is_i32_iff in E365.
+  set (d2 := n + 365) in *. set (e := d2 / 146097). set (c := d2 mod 146097).
+  pose proof (Z.div_mod d2 146097 ltac:(lia)) as DM. fold e c in DM.
+  pose proof (Z.mod_pos_bound d2 146097 ltac:(lia)) as CB. fold c in CB.
+  pose proof (cycle_checked c CB) as CK. unfold cycle_chk in CK.
+  destruct (cycle_to_yo c) as [[ym ord]|]; [|discriminate CK].
+  pose proof (cfd_shift (c - 719528) e) as SH.
+  replace (c - 719528 + e * 146097) with (n - 719163) in SH by (unfold d2 in DM; lia).
+  destruct (civil_from_days (c - 719528)) as [[y0 m0] dd0].
+  destruct (md_of_ordinal (is_leap ym) ord) as [m' d'] eqn:MD.
+  repeat (apply andb_true_iff in CK; destruct CK as [CK ?]).
+  match goal with H : Bool.eqb (ym <=? 142) _ = true |- _ => apply eqb_prop in H; rename H into T142 end.
+  match goal with H : Bool.eqb (257 <=? ym) _ = true |- _ => apply eqb_prop in H; rename H into T257 end.
+  match goal with H : (m' =? m0) && (d' =? dd0) = true |- _ => apply andb_true_iff in H; destruct H as [Hm Hd] end.
+  match goal with H : negb _ = true |- _ => apply negb_true_iff in H; rename H into L366 end.
+  apply Z.eqb_eq in CK, Hm, Hd. subst y0 m' d'.
+  repeat match goal with H : (_ <=? _) = true |- _ => apply Z.leb_le in H end.
+  assert (-14700 <= e <= 14699) as EB by (unfold d2 in DM; lia).
+  unfold i32op.
+  replace (is_i32 (e * 400)) with true by (symmetry; apply is_i32_iff; lia).
+  replace (is_i32 (e * 400 + ym)) with true by (symmetry; apply is_i32_iff; lia).
+  unfold C0 in T257. unfold C1 in T142.
+  assert (n - 719163 = 146097 * e + c - 719528) as EN by (unfold d2 in DM; lia).
+  unfold MIN_YEAR, MAX_YEAR, date_in_range, DMIN, DMAX.
+  destruct (Z.leb_spec 257 ym), (Z.leb_spec 93868 c); try discriminate T257;
+  destruct (Z.leb_spec ym 142), (Z.leb_spec c 52229); try discriminate T142;
+  destruct (Z.ltb_spec (e * 400 + ym) (-262143)); cbn [orb];
+  try (apply andb_false_iff; left; apply Z.leb_gt; lia);
+  destruct (Z.ltb_spec 262142 (e * 400 + ym)); cbn [orb];
+  try (apply andb_false_iff; right; apply Z.leb_gt; lia);
+  (replace (ord =? 0) with false by (symmetry; apply Z.eqb_neq; lia);
+   replace (366 <? ord) with false by (symmetry; apply Z.ltb_ge; lia); cbn [orb];
+   replace (e * 400 + ym) with (ym + e * 400) by lia; rewrite leap_shift, L366;
+   split; [apply andb_true_iff; split; apply Z.leb_le; lia|];
+   split; [unfold ymd_of; rewrite leap_shift, MD; rewrite SH; reflexivity|cbn [fst]; lia]).
+Qed.
+
+Lemma ymd_of_fst yo : let '(y, _, _) := ymd_of yo in y = fst yo.
+Proof. destruct yo as [y o]. unfold ymd_of. destruct (md_of_ordinal (is_leap y) o). reflexivity. Qed.
+
+(* the conversion: for every i32 day count no intermediate leaves its integer type (no RPanic), and the result is the
+   proleptic Gregorian date exactly on chrono's range DMIN..DMAX, None everywhere else *)
+Theorem date32_to_naive_spec d : is_i32 d = true ->
+  naive_ymd d = ROk (if date_in_range d then Some (civil_from_days d) else None).
+Proof.
+  intro Hd. unfold naive_ymd, date32_to_naive, checked_add32.
+  destruct (is_i32 (d + 719163)) eqn:E.
+  - pose proof (chrono_from_ce_spec (d + 719163) E) as S.
+    replace (d + 719163 - 719163) with d in S by lia.
+    destruct (chrono_from_ce (d + 719163)) as [[yo|]|]; [| |destruct S].
+    + destruct S as [S1 [S2 _]]. now rewrite S1, S2.
+    + now rewrite S.
+  - apply is_i32_iff in Hd. apply is_i32_false_iff in E.
+    replace (date_in_range d) with false; [reflexivity|].
+    symmetry. unfold date_in_range, DMIN, DMAX. apply andb_false_iff. right. apply Z.leb_gt. lia.
+Qed.
+Corollary date32_to_naive_no_panic d : is_i32 d = true -> date32_to_naive d <> RPanic.
+Proof.
+  intros Hd C. pose proof (date32_to_naive_spec d Hd) as S. unfold naive_ymd in S. rewrite C in S. discriminate S.
+Qed.
+(* a returned date is a valid calendar date inside chrono's bounds, and it is THE date of that day count *)
+Corollary date32_to_naive_some d y m dd : is_i32 d = true -> naive_ymd d = ROk (Some (y, m, dd)) ->
+  MIN_YEAR <= y <= MAX_YEAR /\ valid_ymd y m dd = true /\ days_from_civil y m dd = d /\ DMIN <= d <= DMAX.
+Proof.
+  intros Hd S. pose proof (date32_to_naive_spec d Hd) as SP. rewrite S in SP.
+  destruct (date_in_range d) eqn:Rg; [|discriminate SP].
+  assert (civil_from_days d = (y, m, dd)) as CF by (remember (civil_from_days d) as t; congruence).
+  pose proof (civil_roundtrip d) as RT. rewrite CF in RT. destruct RT as [RT1 RT2].
+  unfold date_in_range in Rg. apply andb_true_iff in Rg as [R1 R2]. apply Z.leb_le in R1, R2.
+  assert (MIN_YEAR <= y <= MAX_YEAR) as YB.
+  { unfold naive_ymd, date32_to_naive, checked_add32 in S.
+    destruct (is_i32 (d + 719163)) eqn:E; [|discriminate S].
+    pose proof (chrono_from_ce_spec (d + 719163) E) as C.
+    destruct (chrono_from_ce (d + 719163)) as [[yo|]|]; try discriminate S.
+    destruct C as [_ [_ C]]. injection S as S. pose proof (ymd_of_fst yo) as F. rewrite S in F. lia. }
+  repeat split; try assumption; lia.
+Qed.
+
+Lemma naive_cases d : is_i32 d = true ->
+  (date_in_range d = true /\ exists yo, date32_to_naive d = ROk (Some yo) /\ ymd_of yo = civil_from_days d) \/
+  (date_in_range d = false /\ date32_to_naive d = ROk None).
+Proof.
+  intro Hd. pose proof (date32_to_naive_spec d Hd) as S. unfold naive_ymd in S.
+  destruct (date32_to_naive d) as [[yo|]|]; destruct (date_in_range d); try discriminate S.
+  - left. split; [reflexivity|]. exists yo. split; [reflexivity|].
+    remember (ymd_of yo) as a. remember (civil_from_days d) as b. congruence.
+  - right. now split.
+Qed.
+
+(* EXTRACT(YEAR | MONTH | DAY FROM d) over every Date32 value: the proleptic Gregorian field inside chrono's range,
+   the field of the documented default 1970-01-01 outside *)
+Theorem extract_spec f d : is_i32 d = true ->
+  m_extract f d = OVal (field_of f (if date_in_range d then civil_from_days d else (1970, 1, 1))).
+Proof.
+  intro Hd. unfold m_extract.
+  destruct (naive_cases d Hd) as [[Rg [yo [E Y]]]|[Rg E]]; rewrite E, Rg; [now rewrite Y|reflexivity].
+Qed.
+
+(* DATE_TRUNC on Date32 (as repaired): never a panic; NULL outside chrono's range and for the four days whose Monday
+   precedes NaiveDate::MIN; otherwise the first day of the week / month / quarter / year *)
+Theorem date_trunc_spec u d : is_i32 d = true ->
+  m_date_trunc u d =
+    if date_in_range d then
+      let '(y, m, _) := civil_from_days d in
+      if u =? 0 then OVal d
+      else if u =? 1 then (if d - (d + 3) mod 7 <? DMIN then ONull else OVal (d - (d + 3) mod 7))
+      else if u =? 2 then OVal (days_from_civil y m 1)
+      else if u =? 3 then OVal (days_from_civil y ((m - 1) / 3 * 3 + 1) 1)
+      else if u =? 4 then OVal (days_from_civil y 1 1)
+      else ONull
+    else ONull.
+Proof.
+  intro Hd. unfold m_date_trunc, trunc_with.
+  destruct (naive_cases d Hd) as [[Rg [yo [E Y]]]|[Rg E]]; rewrite E, Rg; [now rewrite Y|reflexivity].
+Qed.
+Corollary date_trunc_no_panic u d : is_i32 d = true -> spec_obs (m_date_trunc u d) = true.
+Proof.
+  intro Hd. rewrite (date_trunc_spec u d Hd). destruct (date_in_range d); [|reflexivity].
+  destruct (civil_from_days d) as [[y m] dd].
+  destruct (u =? 0); [reflexivity|]. destruct (u =? 1); [destruct (d - (d + 3) mod 7 <? DMIN); reflexivity|].
+  destruct (u =? 2); [reflexivity|]. destruct (u =? 3); [reflexivity|]. destruct (u =? 4); reflexivity.
+Qed.
+(* the truncated week is the Monday on or before d, at most 6 days back *)
+Corollary date_trunc_week_value d r : is_i32 d = true -> m_date_trunc 1 d = OVal r ->
+  DMIN <= r <= d /\ d - r <= 6 /\ (r + 3) mod 7 = 0.
+Proof.
+  intros Hd. rewrite (date_trunc_spec 1 d Hd). destruct (date_in_range d); [|discriminate].
+  destruct (civil_from_days d) as [[y m] dd]. cbn [Z.eqb].
+  destruct (Z.ltb_spec (d - (d + 3) mod 7) DMIN); [discriminate|]. intro H0. injection H0 as <-.
+  pose proof (Z.mod_pos_bound (d + 3) 7 ltac:(lia)) as B. repeat split; try lia.
+  replace (d - (d + 3) mod 7 + 3) with ((d + 3) - (d + 3) mod 7) by lia.
+  rewrite Zminus_mod, Z.mod_mod, Z.sub_diag by lia. reflexivity.
+Qed.
+(* regression witness (before a29b909): the panicking `date - Duration` on NaiveDate::MIN, a Thursday *)
+Theorem date_trunc_week_before_fix :
+  is_i32 DMIN = true /\ date_in_range DMIN = true /\ civil_from_days DMIN = (MIN_YEAR, 1, 1) /\ (DMIN + 3) mod 7 = 3 /\
+  m_date_trunc_before_fix 1 DMIN = OPanic /\ m_date_trunc_before_fix 1 (DMIN + 3) = OPanic /\
+  m_date_trunc_before_fix 1 (DMIN + 4) = OVal (DMIN + 4) /\
+  m_date_trunc 1 DMIN = ONull /\ m_date_trunc 1 (DMIN + 3) = ONull /\ m_date_trunc 1 (DMIN + 4) = OVal (DMIN + 4).
+Proof. vm_compute. repeat split; reflexivity. Qed.
+
+(* DATE_ADD on Date32 (as repaired): never a panic, for every unit, every Date32 value and EVERY integer count *)
+Theorem date_add_no_panic u v d : is_i32 d = true -> spec_obs (m_date_add u v d) = true.
+Proof.
+  intro Hd. unfold m_date_add, m_date_add_year, m_date_add_day, m_date_add_week, add_days_with, m_date_add_month.
+  destruct (naive_cases d Hd) as [[Rg [yo [E Y]]]|[Rg E]]; rewrite E.
+  - destruct (ymd_of yo) as [[y m] dd].
+    repeat match goal with
+           | |- context [if ?b then _ else _] => destruct b
+           | |- context [match checked_add32 ?a ?b with _ => _ end] => destruct (checked_add32 a b)
+           end; reflexivity.
+  - repeat match goal with |- context [if ?b then _ else _] => destruct b end; reflexivity.
+Qed.
+(* a day / week result is the exact sum and again a date chrono can represent *)
+Theorem date_add_day_value v d r : is_i32 d = true -> m_date_add 0 v d = OVal r ->
+  r = d + v /\ date_in_range r = true /\ is_i32 r = true.
+Proof.
+  intros Hd. unfold m_date_add. cbn [Z.eqb]. unfold m_date_add_day, add_days_with.
+  replace (1 * v) with v by lia.
+  destruct (naive_cases d Hd) as [[Rg [yo [E Y]]]|[Rg E]]; rewrite E; [|discriminate].
+  destruct ((v <? - TD_MAX_DAYS) || (TD_MAX_DAYS <? v)); [discriminate|].
+  destruct (is_i32 v); cbn [negb]; [|discriminate].
+  destruct (date_in_range (d + v)) eqn:R2; [|discriminate]. intro H. injection H as <-.
+  split; [reflexivity|]. split; [exact R2|].
+  unfold date_in_range, DMIN, DMAX in R2. apply andb_true_iff in R2 as [A B]. apply Z.leb_le in A, B.
+  apply is_i32_iff. lia.
+Qed.
+(* regression witness (before 54868b4): Duration::days(i64::MAX) panicked *)
+Theorem date_add_before_fix :
+  is_i32 18262 = true /\ in_range 64 9223372036854775807 = true /\
+  m_date_add_day_before_fix 9223372036854775807 18262 = OPanic /\
+  m_date_add 0 9223372036854775807 18262 = ONull /\ m_date_add 4 9223372036854775807 18262 = ONull /\
+  m_date_add 1 9223372036854775807 18262 = ONull /\ m_date_add 2 4294967297 18262 = ONull /\
+  m_date_add 0 1 18262 = OVal 18263 /\ m_date_add 2 1 19753 = OVal 19782 /\ m_date_add 4 (-1) 19782 = OVal 19416.
+Proof. vm_compute. repeat split; reflexivity. Qed.
+
+Example date_examples :
+  naive_ymd 19782 = ROk (Some (2024, 2, 29)) /\ naive_ymd DMIN = ROk (Some (-262143, 1, 1)) /\
+  naive_ymd DMAX = ROk (Some (262142, 12, 31)) /\ naive_ymd (DMIN - 1) = ROk None /\ naive_ymd (DMAX + 1) = ROk None /\
+  naive_ymd 2147483647 = ROk None /\ naive_ymd (-2147483648) = ROk None /\
+  days_from_civil MIN_YEAR 1 1 = DMIN /\ days_from_civil MAX_YEAR 12 31 = DMAX /\
+  m_extract 0 2147483647 = OVal 1970 /\ m_extract 1 2147483647 = OVal 1 /\ m_extract 0 DMAX = OVal 262142.
+Proof. vm_compute. repeat split; reflexivity. Qed.
+
+(* =====================================================================================================
+   4. the join-reorder size score
+   ===================================================================================================== *)
+(* for every usize row count and either admissible value of the f64 logarithm: every intermediate fits i32 *)
+Theorem score_fits_i32 n lg f : 0 <= n < 2 ^ 64 ->
+  log2_floor (Z.max 1 n) <= lg <= log2_floor (Z.max 1 n) + 1 ->
+  exists v, score_with lg f = ROk v /\ -22000 <= v <= 11500 /\
+            is_i32 (lg * 500) = true /\ is_i32 (10000 - lg * 500) = true /\ is_i32 v = true.
+Proof.
+  intros Hn Hlg. unfold log2_floor in Hlg.
+  assert (0 <= Z.log2 (Z.max 1 n) <= 63) as L.
+  { split; [apply Z.log2_nonneg|]. assert (Z.log2 (Z.max 1 n) < 64); [|lia].
+    apply Z.log2_lt_pow2; [lia|]. change (2 ^ 64) with 18446744073709551616 in *. lia. }
+  assert (is_i32 (lg * 500) = true) as A by (apply is_i32_iff; lia).
+  assert (is_i32 (10000 - lg * 500) = true) as B by (apply is_i32_iff; lia).
+  unfold score_with, i32op. rewrite A, B. destruct f.
+  - assert (is_i32 (10000 - lg * 500 + 1500) = true) as C by (apply is_i32_iff; lia). rewrite C.
+    exists (10000 - lg * 500 + 1500). repeat split; try assumption; lia.
+  - exists (10000 - lg * 500). repeat split; try assumption; lia.
+Qed.
+Corollary score_no_panic n f : 0 <= n < 2 ^ 64 -> exists v, score n f = ROk v /\ -21500 <= v <= 11500.
+Proof.
+  intro Hn. unfold score.
+  assert (0 <= log2_floor (Z.max 1 n) <= 63) as L.
+  { unfold log2_floor. split; [apply Z.log2_nonneg|]. assert (Z.log2 (Z.max 1 n) < 64); [|lia].
+    apply Z.log2_lt_pow2; [lia|]. change (2 ^ 64) with 18446744073709551616 in *. lia. }
+  destruct (score_fits_i32 n (log2_floor (Z.max 1 n)) f Hn ltac:(lia)) as [v [E _]].
+  set (L0 := log2_floor (Z.max 1 n)) in *.
+  exists v. split; [exact E|].
+  unfold score_with, i32op in E.
+  destruct (is_i32 (L0 * 500)); [|discriminate E].
+  destruct (is_i32 (10000 - L0 * 500)); [|discriminate E].
+  destruct f.
+  - destruct (is_i32 (10000 - L0 * 500 + 1500)); [|discriminate E].
+    assert (v = 10000 - L0 * 500 + 1500) as EV by congruence. lia.
+  - assert (v = 10000 - L0 * 500) as EV by congruence. lia.
+Qed.
+(* regression witness (before 993b9a5): an empty table, log2(0) = -inf, `as i32` = i32::MIN, times 500 overflows *)
+Theorem score_before_fix_witness :
+  score_before_fix 0 false = RPanic /\ score 0 false = ROk 10000 /\ score 0 true = ROk 11500 /\
+  score 1 false = ROk 10000 /\ score 25 false = ROk 8000 /\ score (2 ^ 64 - 1) false = ROk (-21500) /\
+  score_with 64 false = ROk (-22000).
 Proof. vm_compute. repeat split; reflexivity. Qed.
